@@ -561,8 +561,14 @@ void exec_step(const J &st, int incb) {
     return;
   } else if (op == "wscript") {  // write acceptance script for the (tcp) socket of the latest frame / given fd
     int fd = (int)st["fd"].num(0);
-    if (fd == 0) {  // latest open tcp socket
-      for (auto &kv : g_socks) if (kv.second.open && kv.second.tcp) fd = kv.first;
+    bool udp = st["udp"].num() != 0;
+    if (udp && st["default"].num()) {  // script for UDP sockets opened from now on
+      g_wscript_default_udp.clear();
+      for (auto &x : st["script"].a) g_wscript_default_udp.push_back((int)x.num());
+      return;
+    }
+    if (fd == 0) {  // latest open tcp (or udp) socket
+      for (auto &kv : g_socks) if (kv.second.open && kv.second.tcp == !udp) fd = kv.first;
     }
     auto it = g_socks.find(fd);
     if (it == g_socks.end() || st["default"].num()) {
